@@ -131,9 +131,9 @@ for _n, _w in (("k_block_step_obj_w0", 0), ("k_block_step_arr_w16", 16), ("k_blo
 
 # modular steps of the validating skipper
 add(
-    H("m_skip_array_n6", "main", ["C02", "C14"], ["Parser::skip_array", "Parser::skip_space_peek"],
+    H("m_skip_array_n6", "main", ["C02", "C14", "C12"], ["Parser::skip_array", "Parser::skip_space_peek"],
       "every buffer of length <= 6 after '[' x every element recogniser E (symbolic table)", stubs=[CUT_SYNTAX, M_WS, M_ONE], cost=60),
-    H("m_skip_object_n6", "main", ["C02", "C14"], ["Parser::skip_object", "Parser::parse_object_clo"],
+    H("m_skip_object_n6", "main", ["C02", "C14", "C12"], ["Parser::skip_object", "Parser::parse_object_clo"],
       "every buffer of length <= 6 after '{' x every E", stubs=[CUT_SYNTAX, M_WS, M_STR, M_ONE], cost=280),
     H("m_skip_object_n7", "main", ["C02", "C14"], ["Parser::skip_object", "Parser::parse_object_clo"],
       "every buffer of length <= 7 after '{' x every E", stubs=[CUT_SYNTAX, M_WS, M_STR, M_ONE], tier=T, cost=330),
@@ -200,6 +200,10 @@ add(
 
 # ================= src/util/string.rs, unicode.rs =================================================
 add(
+    H("u_read_from_faststr_outlives_reader", "main", ["C01", "C12", "C13"], ["Read::from::<&FastStr>", "<&FastStr as JsonInput>::to_json_slice", "PinnedInput::from / as_ptr", "Read::slice"],
+      "inlined FastStr of two symbolic ASCII bytes: every byte handed out for 'de reads back after the reader is dropped", cost=30),
+    H("u_read_from_faststr_shared_outlives_reader", "main", ["C01", "C12", "C13"], ["Read::from::<&FastStr>", "<&FastStr as JsonInput>::to_json_slice", "PinnedInput::from / as_ptr", "Read::slice"],
+      "a 28-byte FastStr in the Arc<String> representation and `[1]` in the static one: every byte handed out for 'de reads back after the reader is dropped", cost=30),
     H("k_string_block", "main", ["C09", "C02"], ["StringBlock::new", "StringBlock::{has_unescaped,has_quote_first,has_backslash,quote_index,bs_index,unescaped_index}", "BitMask::before/first_offset"],
       "all 32-byte blocks (complete)", stubs=[MAXEPU8], cost=40),
     H("k_string_tables", "main", ["C05", "C09"], ["ESCAPED_TAB", "QUOTE_TAB", "NEED_ESCAPED"], "all 256 bytes (complete)", cost=1),
@@ -279,6 +283,8 @@ add(
     H("e_owned_load_then_parse", "main", ["C13", "C18", "C01"], ["LazyRaw::load", "LazyRaw::parse"],
       "sequence: optional shared read that fills the cache, then the mutable take-out; the cache must not keep the pointer it handed out",
       native_replay=False, stubs=[ATOMIC, CUT_LOAD, CUT_DROP], tier=T, cost=365, mem_gb=28, exp_gb=10),
+    H("u_owned_from_lazy_after_as_str", "main", ["C13"], ["impl From<LazyValue> for OwnedLazyValue", "LazyValue::as_str", "Inner::parse_from", "impl Clone for Inner"],
+      "raw text `\"\\u0078\"` (escapes possible) x {as_str() ran before, ran on the value it was cloned from, never ran}", stubs=["cut: serde::de::from_slice_unchecked::<String> -> \"x\"", "env model: AtomicPtr (no interference)"], cost=30),
     H("u_owned_from_lazy_types", "main", ["C13", "C01"], ["impl From<LazyValue> for OwnedLazyValue", "OwnedLazyValue::get_type/as_bool", "LazyRaw::get_type"],
       "raw text of each JSON value class (true,false,null,number,negative number,string,[],{}), conversion From<LazyValue>; string escape status symbolic", exp_gb=8, cost=12),
     H("u_owned_new_types", "main", ["C13", "C01"], ["OwnedLazyValue::new (used by to_lazyvalue and the parser)", "OwnedLazyValue::get_type/as_bool", "LazyRaw::get_type"],
@@ -304,6 +310,8 @@ add(
     H("u_int_widths_reach_itoa", "main", ["C08", "C05"], ["Serializer::serialize_{i,u}{8,16,32,64,128}", "MapKeySerializer::serialize_{i,u}{8..128}", "Formatter::write_{i,u}{8..128}"],
       "every width x every value x {value position, map key}: the digit generator receives the same value of the same width and its text is what is written (between quotes for a key)",
       stubs=["cut: itoa::Buffer::format -> recorder returning \"7\" (itoa's digit generation is a trusted dependency)"], cost=30, native_replay=False),
+    H("u_write_string_fast_n2", "main", ["C05"], ["Formatter::write_string_fast (CompactFormatter, PrettyFormatter)", "WriteExt for Vec<u8>::{reserve_with,flush_len}"],
+      "every ASCII string of length <= 2 x need_quote x {compact, pretty}; writer = Vec with spare capacity", stubs=["model: util::string::format_string -> specification escaper into the reserved window (+ window >= 6n+35 asserted)"], cost=30),
     H("u_map_key_char_goes_through_escaper", "main", ["C05"], ["MapKeySerializer::serialize_char", "Serializer::serialize_str", "Formatter::write_string_fast (routing)"],
       "every char: the key reaches format_string as its UTF-8 bytes with need_quote, and nothing else is written", stubs=["cut: util::string::format_string -> recorder (the escaper is decided by the U-format harnesses)"], cost=20, native_replay=False),
     H("k_float_nonfinite_null", "main", ["C05", "C08"], ["Serializer::serialize_f64", "Serializer::serialize_f32", "Formatter::write_null/write_f64/write_f32"],
@@ -437,6 +445,9 @@ for _k in range(1, 10):  # need = 10..16 did not finish within 20 minutes (64-bi
 
 # ---- experimental harnesses: kept in the harness files, runnable with --dev, not part of any claim ----
 EXPERIMENTAL = [
+    H("u_parse_string_inplace_prefix_p4", "main", [], ["util::string::parse_string_inplace (first block loop, escape loop, find-and-move loop)"],
+      "4 symbolic non-backslash bytes + `\\n\"x` + zero padding (112-byte buffer), strict: verdict, length, cursor, bytes == reference decoder", stubs=[MAXEPU8], tier=T, timeout=3600, mem_gb=32, exp_gb=8,
+      unwindset=[("parse_string_inplace", None, 3), ("ref_decode_string", None, 10), ("inplace_prefix_body", None, 6)]),
     H("u_parse_string_inplace_verdict_n2", "main", [], ["util::string::parse_string_inplace"], "2 symbolic bytes + `n\"x` + real padding, strict, no \\u", stubs=[MAXEPU8], tier=T, timeout=2400, mem_gb=32, exp_gb=12,
       unwindset=[("parse_string_inplace", 0, 3), ("parse_string_inplace", 1, 4), ("parse_string_inplace", 2, 4), ("parse_string_inplace", 3, 4), ("parse_string_inplace", 4, 5),
                  ("ref_decode_string", None, 7)]),
